@@ -341,9 +341,31 @@ def load_known():
     return json.load(open(p))
 
 
+REPLAY = None      # (stream name, input line) when a replay file is being re-run
+
+
+def generic_replay(mod, prop, tier, seed, path):
+    """bin/check <id> --replay <file>: re-run the input recorded in a replay file through the stream
+    that reported it (same harness, model and oracle), on the current tree.  A replay file that
+    records no input (a proof obligation or a build that broke) re-runs the proof step.  Exit 1
+    with a VIOLATION line if it still fails."""
+    global REPLAY
+    text = open(path).read()
+    ms = re.search(r"^stream=(\S+)", text, re.M)
+    mi = re.search(r"^input: (.*)$", text, re.M)
+    rep = Report(prop, tier, seed, replay=True)
+    if ms and mi:
+        REPLAY = (ms.group(1), mi.group(1).strip())
+    # streams run through run_stream are restricted to the recorded input; anything else the check
+    # does (proof step, hand-written loops) is simply run again
+    mod.run(rep, tier, seed)
+    return rep.finish(getattr(mod, "LEVEL", "proof"))
+
+
 class Report:
-    def __init__(self, prop, tier, seed):
+    def __init__(self, prop, tier, seed, replay=False):
         self.prop, self.tier, self.seed = prop, tier, seed
+        self.replay = replay
         self.t0 = time.time()
         self.violations = []     # (replay_path, witness_found, text)
         self.known = []
@@ -352,11 +374,12 @@ class Report:
                     "streams": {}, "theorems": {}}
         self.assumptions = []
         os.makedirs(os.path.join(VERIF, "out", prop), exist_ok=True)
-        for f in glob.glob(os.path.join(VERIF, "out", prop, "replay-*")):
-            os.remove(f)
+        if not replay:
+            for f in glob.glob(os.path.join(VERIF, "out", prop, "replay-*")):
+                os.remove(f)
 
     def replay_path(self, tag):
-        return os.path.join(VERIF, "out", self.prop, "replay-%s.txt" % tag)
+        return os.path.join(VERIF, "out", self.prop, "%s-%s.txt" % ("replayed" if self.replay else "replay", tag))
 
     def violation(self, tag, text, witness):
         """witness: True if a concrete failing input against the implementation is in text"""
@@ -373,9 +396,10 @@ class Report:
               "coverage": self.cov, "assumptions": self.assumptions,
               "wall_s": round(time.time() - self.t0, 2), "violations": len(self.violations),
               "known_findings_reported": self.known}
-        os.makedirs(os.path.join(VERIF, "evidence"), exist_ok=True)
-        with open(os.path.join(VERIF, "evidence", self.prop + ".json"), "w") as f:
-            json.dump(ev, f, indent=1, sort_keys=True)
+        if not self.replay:       # a replay describes one input, not the check: the evidence file is left alone
+            os.makedirs(os.path.join(VERIF, "evidence"), exist_ok=True)
+            with open(os.path.join(VERIF, "evidence", self.prop + ".json"), "w") as f:
+                json.dump(ev, f, indent=1, sort_keys=True)
         for k in self.known:
             print("KNOWN-FINDING: property=%s %s" % (self.prop, k))
         for p, wit, _ in self.violations:
@@ -451,9 +475,13 @@ def run_stream(rep, name, harness, driver, lines, oracle=None, nontrivial=None,
     answer.  The oracle is also applied to the implementation's answers on the whole
     stream (witness search over inputs on which model and code agree)."""
     import random
+    if REPLAY is not None:
+        if REPLAY[0] != name:
+            return None
+        lines = [REPLAY[1]]
     d = os.path.join(VERIF, "out", rep.prop)
     os.makedirs(d, exist_ok=True)
-    cf = os.path.join(d, name + ".cases")
+    cf = os.path.join(d, name + (".replay" if REPLAY is not None else "") + ".cases")
     with open(cf, "w") as f:
         f.write("\n".join(lines) + "\n")
     st = {"cases": len(lines), "mismatches": 0, "oracle_violations": 0, "aborts": 0}
@@ -529,4 +557,6 @@ def run_stream(rep, name, harness, driver, lines, oracle=None, nontrivial=None,
     if lines:
         for i in sorted(rng.sample(range(len(lines)), min(3, len(lines)))):
             rep.cov["samples"].append({"stream": name, "input": lines[i][:600], "implementation": (impl.get(i) or "")[:600], "model": model[i][:600]})
+    if REPLAY is not None:
+        return None          # the caller's follow-up steps index the full stream
     return impl, model
